@@ -413,7 +413,9 @@ func TestVerifC13(t *testing.T) {
 		if e.db != nil {
 			e.db.Close(e.ctx)
 		}
-		db, ctx := SetupTestDBWithOptions(t, DatabaseContextOptions{CacheOptions: base.Ptr(DefaultCacheOptions()), Scopes: GetScopesOptionsDefaultCollectionOnly(t), BcryptCost: 4, ClientPartitionWindow: base.DefaultClientPartitionWindow, QueryPaginationLimit: 2})
+		co := DefaultCacheOptions()
+		co.ChannelQueryLimit = 2 // channel queries (back-fill, revocation) page by 2
+		db, ctx := SetupTestDBWithOptions(t, DatabaseContextOptions{CacheOptions: &co, Scopes: GetScopesOptionsDefaultCollectionOnly(t), BcryptCost: 4, ClientPartitionWindow: base.DefaultClientPartitionWindow, QueryPaginationLimit: 2})
 		coll, ctx := GetSingleDatabaseCollectionWithUser(ctx, t, db)
 		if _, err := coll.UpdateSyncFun(ctx, c13SyncFn); err != nil {
 			t.Fatalf("sync fn: %v", err)
